@@ -334,4 +334,37 @@ example : multipartBoundary (some [109,117,108,116,105,112,97,114,116,47,102,111
 example : multipartBoundary (some [116,101,120,116,47,112,108,97,105,110,59,32,98,111,117,110,100,97,114,121,61,120]) =
     .error .badContentType := by decide
 
+/-! ### A chunked coding that cannot be undone
+
+Stream `bad`, framing `bc`: the driver checks that `Extract.dechunk` fails on the
+bytes sent (so that the case is what the generator meant it to be) and expects
+400 with no handler run. -/
+
+/-- A chunked body must begin with a hexadecimal digit: anything else (a blank, a
+sign, CR, a letter beyond `f`) is refused outright. -/
+theorem dechunk_refuses_bad_first_byte (c : Nat) (w : Bytes) (h : hexVal c = none) :
+    dechunk (c :: w) = none := by
+  simp [dechunk, dechunkAux, h]
+
+/-- After the size only `CRLF`, blanks or `;extension CRLF` may follow. -/
+theorem dechunk_refuses_bad_size_line (w : Bytes) (d : Nat) (hd : (hexVal d).isSome = true)
+    (h : afterSize (hexPrefix (d :: w) 0).2 = none) : dechunk (d :: w) = none := by
+  have : (hexVal d).isNone = false := by
+    cases hh : hexVal d <;> simp_all
+  simp only [dechunk, dechunkAux, this, Bool.false_eq_true, ↓reduceIte, h]
+
+/-- The shapes the harness sends (tests of the definitions, not the general claim):
+`zz`, `-1`, `0x24`, an empty size, a leading blank, LF alone, CR alone, no CRLF after
+the data, a size one short. -/
+example : dechunk [122, 122, 13, 10, 97, 98, 13, 10, 48, 13, 10, 13, 10] = none ∧
+    dechunk [45, 49, 13, 10] = none ∧ dechunk [13, 10, 97] = none ∧ dechunk [32, 50, 13, 10] = none ∧
+    dechunk [48, 120, 50, 13, 10, 97, 98, 13, 10, 48, 13, 10, 13, 10] = none ∧
+    dechunk [50, 10, 97, 98, 13, 10, 48, 13, 10, 13, 10] = none ∧
+    dechunk [50, 13, 97, 98, 13, 10, 48, 13, 10, 13, 10] = none ∧
+    dechunk [50, 13, 10, 97, 98, 48, 13, 10, 13, 10] = none ∧
+    dechunk [49, 13, 10, 97, 98, 13, 10, 48, 13, 10, 13, 10] = none ∧
+    dechunk [50, 13, 10, 97, 98, 13, 10, 48, 13, 10, 13, 10] = some ([97, 98], []) := by
+  refine ⟨?_, by decide, by decide, by decide, by decide, by decide, by decide, by decide, by decide, by decide⟩
+  exact dechunk_refuses_bad_first_byte 122 _ (by decide)
+
 end Dropshot.C10
